@@ -599,6 +599,18 @@ def module_round_trip(ctx, rep, rule: str) -> None:
                     bad.append(f"tensor at {p_} holds {t_.v!r}, the loaded state has {want.get(p_)!r}")
             if dst.label != "x" or dst.count != 3 or dst.mixed[1:] != (None, 2.5) or dst.named[0] != "name":
                 bad.append("non-tensor entries changed under the default flags")
+            # the same state dict with every nested dictionary in the opposite insertion order (what a checkpoint backend that
+            # sorts or re-groups keys hands back) is the same state: entries are found by key, not by position
+            def reordered(d_):
+                return {k_: (reordered(v_) if isinstance(v_, dict) else v_) for k_, v_ in reversed(list(d_.items()))} if isinstance(d_, dict) else d_
+
+            dst2 = build("e")
+            before2 = dict(tensors(dst2))
+            run_method("load_state_dict", dst2, [reordered(sd)], {})
+            for p_, t_ in before2.items():
+                if t_.v != want.get(p_):
+                    bad.append(f"with the entries of the state dict in another insertion order the tensor at {p_} holds {t_.v!r} instead of {want.get(p_)!r}")
+                    break
     except Raised as r:
         bad.append(f"raises {r.exc_name}")
     except Unsupported as u:
